@@ -1037,7 +1037,7 @@ impl rustc_driver::Callbacks for Cb {
                         obj(&[("name", esc(v.name.as_str())), ("fields", arr(&fs))])
                     })
                     .collect();
-                adts.push(obj(&[("path", esc(&tcx.def_path_str(did))), ("dpath", esc(&cx.dpath(did))), ("variants", arr(&vs))]));
+                adts.push(obj(&[("path", esc(&tcx.def_path_str(did))), ("dpath", esc(&cx.dpath(did))), ("vis", esc(&format!("{:?}", tcx.visibility(did)))), ("variants", arr(&vs))]));
             }
         }
         // statics, unsafe code, crate features, field attributes
